@@ -335,6 +335,8 @@ class ClientBase:
         """
         # Make a shallow copy of the graph
         loaded_net = nx.DiGraph(compiled_net)
+        # nx.DiGraph(G) shares the attribute values: give every loaded net its own set of requested outputs
+        loaded_net.graph['outputs'] = set(loaded_net.graph['outputs'])
 
         loaded_net = ObservedLoader.load(context, loaded_net, batch_index)
         loaded_net = AdditionalNodesLoader.load(context, loaded_net, batch_index)
